@@ -83,10 +83,75 @@ def slice(ctx: fw.Ctx) -> fw.Outcome:
         cases.append((rng.choice(["note", "sp", "te"]), lc.random_string(rng), None, False, "random"))
     lc.run(ctx, out, cases)
     classes_table(ctx, out)
+    sections(ctx, out)
     return out
+
+
+def sections(ctx, out):
+    """whole instrument sections mixing canonical lines with near-twins that differ only in blanks / one token: the parsed
+    track must hold exactly what the independent reading of the format accepts, line by line, whatever was parsed before"""
+    from .. import common
+    rng = ctx.sub("sections")
+    prof = gen.Profile(exotic_pad=0.2, exotic_digits=0.1)
+    cases = []
+    for _ in range(ctx.n(120, 12_000)):
+        body, t = [], 0
+        for _ in range(rng.randint(2, 14)):
+            t += rng.randint(1, 200)
+            kind = rng.choice(["note", "sp", "te"])
+            if kind == "note":
+                line = f"  {t} = N {rng.randint(0, 7)} {rng.choice([0, rng.randint(1, 500)])}"
+            elif kind == "sp":
+                line = f"  {t} = S 2 {rng.randint(0, 500)}"
+            else:
+                line = f"  {t} = E {rng.choice(['solo', 'a\tb', 'x=y', 'soloend'])}"
+            twin = rng.choice([line.replace(" N ", " N  ", 1), line.replace(" S 2 ", " S 2  ", 1), line.replace("\t", " "), line.replace(" = ", "  = ", 1),
+                               line.replace(" = ", " =  ", 1), line.replace(" N ", " N 0", 1), line + " x", lc.mutate(rng, line)])
+            pair = [line, twin] if rng.random() < 0.5 else [twin, line]
+            body += pair if rng.random() < 0.7 else [line]
+        body = [b for b in body if b not in ("{", "}") and not any(ch in b for ch in "\n\r\x0b\x0c\x1c\x1d\x1e\x85\u2028\u2029")]
+        text = "\n".join(["[Song]", "{", "  Resolution = 192", "}", "[SyncTrack]", "{", "  0 = TS 4", "  0 = B 120000", "}", "[Events]", "{", "}",
+                          "[ExpertSingle]", "{"] + body + ["}"]) + "\n"
+        cases.append((text, body))
+    a, b = common.run_charts([(t, None) for t, _ in cases])
+    for (text, body), x, y in zip(cases, a, b):
+        specs = [(lc.spec("note", l), lc.spec("sp", l), lc.spec("te", l)) for l in body]
+        notes = [s[0] for s in specs if s[0] != "none"]
+        sps = [s[1] for s in specs if s[0] == "none" and s[1] != "none"]
+        tes = [s[2] for s in specs if s[0] == "none" and s[1] == "none" and s[2] != "none"]
+        warn = sum(1 for s in specs if s == ("none", "none", "none"))
+        rp = {**common.chart_replay(text), "section": True}
+        out.case("S" + fw.h(text), True, None, tags=["section-with-twins"])
+        out.traces += 1
+        if common.framing_proj(x) != common.framing_proj(y):
+            p_, q_ = fw.first_diff(x, y)
+            out.corr_mismatch("instrument section with near-twin lines", rp, impl=p_, model=q_)
+        # promise (ticks only for notes: grouping/ordering belongs to C02/C11): every accepted line contributes, no other does
+        want_ticks = sorted(int(n.split(" ")[1]) for n in notes)
+        d = gen.parse_dump(x)
+        if d["err"] is not None:
+            # an out-of-order twin can legitimately raise ValueError (C11); anything else is not promised here
+            continue
+        tr = d["tracks"].get((0, 3), {"notes": [], "sps": [], "tes": []})
+        got_sp = [f"sp {t} {ln}" for t, ln, *_ in tr["sps"]]
+        got_te = [f"te {t} {v}" for t, _, _, v in tr["tes"]]
+        got_ticks = sorted({n["tick"] for n in tr["notes"]})
+        if got_sp != sps or got_te != tes or got_ticks != sorted(set(want_ticks)) or d["unparsable"] != warn:
+            out.violation("section-" + fw.h(text), f"instrument section with near-twin lines: star power {got_sp[:4]} vs {sps[:4]}, track events {got_te[:4]} vs {tes[:4]}, "
+                          f"note ticks {got_ticks[:6]} vs {sorted(set(want_ticks))[:6]}, warnings {d['unparsable']} vs {warn}",
+                          {**rp, "sps": sps, "tes": tes, "ticks": sorted(set(want_ticks)), "warn": warn}, observed=[got_sp, got_te, got_ticks, d["unparsable"]][:3],
+                          promised=[sps, tes, sorted(set(want_ticks)), warn][:3])
 
 
 def replay(ctx, data):
     if data["op"] == "line":
         return lc.replay(data)
+    if data["op"] == "chart" and data.get("section"):
+        x = impl.run_chart(data["text"])
+        d = gen.parse_dump(x)
+        if d["err"] is not None:
+            return False, x
+        tr = d["tracks"].get((0, 3), {"notes": [], "sps": [], "tes": []})
+        got = ([f"sp {t} {ln}" for t, ln, *_ in tr["sps"]], [f"te {t} {v}" for t, _, _, v in tr["tes"]], sorted({n["tick"] for n in tr["notes"]}), d["unparsable"])
+        return got != (data["sps"], data["tes"], data["ticks"], data["warn"]), str(got)[:300]
     return None, "unknown replay op"
